@@ -53,6 +53,8 @@ var Exprs = []Expr{
 	{Re: `\pL+`, Members: []string{"x", "Zq"}, Non: []string{"", "1", "a1"}},
 	{Re: `[\p{Lu}0-9]+`, Members: []string{"A1", "Z", "7"}, Non: []string{"", "a", "A-"}},
 	{Re: `\PN+`, Members: []string{"ab", "-"}, Non: []string{"", "4", "a4"}},
+	// an alternation between groups: begins and ends with a parenthesis without being one group
+	{Re: `(v1)|(v2)`, Members: []string{"v1", "v2"}, Non: []string{"v1x", "xv2", "v", "v1v2"}, Groups: true},
 }
 
 // RandomExpr assembles an expression from 1..3 quantified atoms. Everything it
